@@ -33,6 +33,7 @@ func genPlanD(def *PropDef, tier string, seed uint64, run int64) *Plan {
 		cfg.KeySet = genKeySet(rng, g.p)
 		cfg.Open = OpenOpts{Rollover: 0, NewV: rng.Pick(0, 35, 65)} // V1 35 %, V2 65 %
 		n := rng.Range(3, 12)
+		total := int64(n)
 		for n > 0 {
 			op := Op{K: "pub"}
 			for i, k := 0, rng.Range(1, min(n, 4)); i < k; i++ {
@@ -42,6 +43,11 @@ func genPlanD(def *PropDef, tier string, seed uint64, run int64) *Plan {
 				n--
 			}
 			plan.Ops = append(plan.Ops, op)
+		}
+		if rng.Chance(30) {
+			// a segment with a hole (a middle message deleted, rewritten in place) is as
+			// undamaged as any other
+			plan.Ops = append(plan.Ops, Op{K: "del", Sel: &OffSel{Kind: "abs", Abs: []int64{rng.I64(1, total-2)}}})
 		}
 	} else {
 		// C14: a 3-5 segment V2 log, keys repeated across segments, no colliding keys
